@@ -15,6 +15,7 @@ import sys
 from vlib.core import run_cmd, VERIF, SplitMix64
 from vlib.build import BuildError
 from tools.gen import peg as gen_peg
+from tools.gen import pegskel as gen_pegskel
 from tools.gen.csrc import ExtractError
 
 sys.path.insert(0, os.path.join(VERIF, "harness", "C12"))
@@ -33,7 +34,12 @@ THEOREMS = ["JanetModel.Props.C12." + t for t in (
 TIE = ["JanetModel.Peg.Tie." + t for t in (
     "lenprefix_mode_restored", "no_mode_leaks", "no_window_leaks", "number_capture_not_raw", "recursion_guard", "depth_exits_balanced")]
 ENV = dict(os.environ, ASAN_OPTIONS="detect_leaks=0:abort_on_error=0", UBSAN_OPTIONS="print_stacktrace=1")
-HASHES = os.path.join(VERIF, "harness", "C12", "case_hashes.json")
+CANON = os.path.join(VERIF, "harness", "C12", "case_canon.json")
+# the statements of these opcode cases of the CURRENT peg.c, translated into the IR Peg/Skel.lean (Gen/PegSkel.lean), are proved
+# to BE the Op.step case (semantic comparison, Peg/TieSkel.lean); every other case is compared in canonical form (CANON)
+TIESKEL = ["JanetModel.Peg.TieSkel." + t for t in (
+    "rule_if", "rule_ifnot", "rule_not", "rule_drop", "rule_only_tags", "rule_sub", "rule_accumulate", "rule_capture",
+    "rule_position", "rule_constant")]
 ENTRIES = ("match", "find", "findall", "replace", "replaceall")
 
 
@@ -524,22 +530,58 @@ def shrink(case, still_fails, seconds=45):
     return best
 
 
+def tieskel_failures(ctx):
+    """names of the theorems of Peg/TieSkel.lean in which lake reported an error (from the build log)"""
+    import re
+    logp = os.path.join(ctx.replay_dir, "lake-JanetModel.Peg.TieSkel.log")
+    import vlib.core as vcore
+    src = os.path.join(vcore.LEAN, "JanetModel", "Peg", "TieSkel.lean")
+    try:
+        with open(logp) as f:
+            log = f.read()
+        with open(src) as f:
+            lines = f.read().splitlines()
+    except OSError:
+        return []
+    starts = [(i + 1, m.group(1)) for i, l in enumerate(lines) for m in [re.match(r"theorem (\w+)", l)] if m]
+    out = []
+    for m in re.finditer(r"error: [^\n]*TieSkel\.lean:(\d+):", log):
+        ln = int(m.group(1))
+        name = None
+        for a, nm in starts:
+            if a <= ln:
+                name = nm
+        if name and name not in out:
+            out.append(name)
+    return out
+
+
 def run(ctx, only_cases=None):
     quick = ctx.tier == "quick"
     broken = []
     # (A) regenerate + tie on the shape of peg_rule
     leak = 0
+    tie_info = {"cases_changed": [], "ir_rules": list(gen_pegskel.IR_RULES)}
     try:
         ctx.build.boot()
         tree = ctx.build.tree
         ctx.gen("Peg.lean", gen_peg.render(tree))
         x = gen_peg.extract(tree)
         leak = (1 if "RULE_LENPREFIX" in x["mode_leaks"] else 0) + (2 if x["num_raw"] else 0)
-        with open(HASHES) as f:
+        ctx.gen("PegSkel.lean", gen_pegskel.render(tree))
+        sk = gen_pegskel.extract(tree)
+        with open(CANON) as f:
             known = json.load(f)
-        changed = sorted(k for k, v in x["hashes"].items() if v not in known.get(k, []))
-        if changed:
-            broken.append("tie: peg_rule case(s) %s differ from the source the Lean model (Peg/Op.lean) mirrors" % ",".join(changed))
+        for r, why in sorted(sk["problems"].items()):
+            broken.append("tie: peg_rule case %s is no longer in the statement language of Peg/Skel.lean (%s)" % (r, why))
+        for r, c in sorted(sk["canons"].items()):
+            if c in known.get(r, []):
+                continue
+            tie_info["cases_changed"].append(r)
+            if r in gen_pegskel.IR_RULES:
+                continue          # decided semantically by Peg/TieSkel.lean below
+            broken.append("tie: peg_rule case %s differs from the source the Lean model (Peg/Op.lean) mirrors: %s" % (
+                r, gen_pegskel.token_diff(known[r][0], c) if known.get(r) else "unknown case"))
         if x["num_raw"]:
             broken.append("translator: RULE_CAPTURE_NUM accumulates the matched text instead of the captured number when the grammar has no back-reference")
         if x["depth_bad"]:
@@ -556,6 +598,15 @@ def run(ctx, only_cases=None):
     # (B,C)
     broken += ctx.obligations("JanetModel.Props.C12", THEOREMS)
     broken += ctx.obligations("JanetModel.Peg.Tie", TIE)
+    sk_broken = ctx.obligations("JanetModel.Peg.TieSkel", TIESKEL)
+    if sk_broken:
+        named = tieskel_failures(ctx)
+        if named:
+            msg = "JanetModel.Peg.TieSkel: the current peg.c case no longer IS the Op.step case for " + ", ".join(named)
+            ctx.broken.append(msg)
+            sk_broken = sk_broken + [msg]
+    broken += sk_broken
+    tie_info["ir_rules_changed_but_proved_equal"] = [] if sk_broken else [r for r in tie_info["cases_changed"] if r in gen_pegskel.IR_RULES]
     if not quick:
         ok, log = ctx.leanchecker("JanetModel.Props.C12")
         if not ok:
@@ -680,6 +731,7 @@ def run(ctx, only_cases=None):
             sum(1 for c in cases if c.dump and c.dump.startswith("B "))),
         "validation_expected": sum(1 for c in cases if getattr(c, "expect_valid", False)),
         "model_timeouts": sum(1 for c in cases if getattr(c, "model_timeout", False)),
+        "peg_rule_tie": tie_info,
         "disagreements": len(diffs_all), "crashes": len(crashes), "lenprefix_mode_leak_in_source": bool(leak & 1), "number_raw_accumulate_in_source": bool(leak & 2),
     }
     return ctx.finish("proof", cov, assumptions=[
